@@ -483,6 +483,200 @@ def do_dplik(ctx, batch, case):
               ctx.disagree("c05.transition_cost", case, transition_cost(case["recomb"], impl["tv"]), ans))
 
 
+
+# ------------------------------------------------------------------------------------------------
+# (e) recombination cost vector: recombination_cost_map / uniform_recombination_map / centimorgen_to_phred
+# ------------------------------------------------------------------------------------------------
+
+def fl(x):
+    """a finite double as the exact pair [m, e], value m * 2**e"""
+    import math
+    if x == 0:
+        return [0, 0]
+    f, e = math.frexp(x)
+    return [int(f * 2 ** 53), e - 53]
+
+
+def gen_recomb_case(rng):
+    n = rng.randrange(0, 9)
+    hi = rng.choice([60, 1000, 100000, 10 ** 7, 2 * 10 ** 8])
+    positions = sorted(rng.sample(range(0, hi), min(n, hi)))
+    r = rng.random()
+    if r < 0.04:
+        positions = [rng.randrange(hi) for _ in range(n)]                 # unsorted / duplicate positions
+    case = {"kind": "recomb", "positions": positions, "map": None, "rate": None}
+    if rng.random() < 0.6:
+        k = rng.randrange(0 if rng.random() < 0.02 else 1, 7)
+        mp = sorted(rng.sample(range(0, 2 * hi), k))
+        if mp and rng.random() < 0.1:
+            mp[0] = 0
+        cum, gm = 0.0, []
+        for p in mp:
+            gm.append([p, cum])
+            cum += rng.choice([0.0, 0.0, 1e-12, 1e-10, rng.random() * 1e-6, rng.random() * 1e-3, rng.random(), rng.random() * 5])
+        if rng.random() < 0.03:
+            rng.shuffle(gm)
+        if gm and rng.random() < 0.03:
+            gm[rng.randrange(len(gm))][1] = rng.random() * 3                 # a map that is not monotone
+        case["map"] = gm
+    else:
+        case["rate"] = rng.choice([1.26, 1.26, 0.01, 50.0, 5000.0, 100000.0, 1e6, 1e-9, 0.0, -1.0, rng.random() * 10])
+    return case
+
+
+def recomb_impl(case):
+    from whatshap.pedigree import recombination_cost_map, RecombinationMapEntry, UniformRecombinationCostComputer
+    try:
+        if case["map"] is not None:
+            return {"ok": [int(x) for x in recombination_cost_map([RecombinationMapEntry(p, c) for p, c in case["map"]], case["positions"])]}
+        return {"ok": [int(x) for x in UniformRecombinationCostComputer.uniform_recombination_map(case["rate"], case["positions"])]}
+    except (AssertionError, ValueError, ZeroDivisionError, IndexError, OverflowError) as e:
+        return {"err": type(e).__name__}
+
+
+def recomb_request(case):
+    if case["map"] is not None:
+        return {"op": "c05.recomb", "map": [[p, fl(c)] for p, c in case["map"]], "positions": case["positions"]}
+    return {"op": "c05.recomb", "rate": fl(case["rate"]), "positions": case["positions"]}
+
+
+def phred_real(d):
+    """-10 log10 of Haldane's recombination probability, computed without the cancellation of 1 - exp(-x)"""
+    import math
+    return -10.0 * math.log10(-math.expm1(-2.0 * d / 100.0) / 2.0)
+
+
+def recomb_meaning(case):
+    """what the numbers mean, independently of the code's float arithmetic: per interval the set of admissible costs
+    (piecewise-linear interpolation of the genetic map in exact rationals, extrapolation before the first map point from
+    (0, 0) and after the last with the average rate; clamp at 1e-10 cM; phred of Haldane's map function; rounding may go
+    either way within the noise of the code's `1 - exp(-x)`).  None where the input is outside that reading (unsorted
+    map or positions, decreasing map, non-positive rate, duplicates)."""
+    from fractions import Fraction as F
+    pos = case["positions"]
+    if any(b <= a for a, b in zip(pos, pos[1:])):
+        return None
+    if case["map"] is not None:
+        gm = case["map"]
+        if not gm or any(b[0] <= a[0] for a, b in zip(gm, gm[1:])) or any(b[1] < a[1] for a, b in zip(gm, gm[1:])) or gm[0][1] < 0:
+            return None
+        if gm[-1][0] == 0:
+            return None
+        if gm[0][0] == 0 and gm[0][1] != 0:
+            return None
+        pts = ([(0, F(0))] if gm[0][0] > 0 else []) + [(p, F(c)) for p, c in gm]
+
+        def cum(x):
+            if x > pts[-1][0]:
+                return pts[-1][1] + (x - pts[-1][0]) * pts[-1][1] / pts[-1][0]
+            for (p0, c0), (p1, c1) in zip(pts, pts[1:]):
+                if p0 <= x <= p1:
+                    return c0 + (x - p0) * (c1 - c0) / (p1 - p0)
+            return pts[0][1]          # a single map point at 0
+        ds = [max(float(cum(b) - cum(a)), 1e-10) for a, b in zip(pos, pos[1:])]
+    else:
+        if case["rate"] <= 0:
+            return None
+        ds = [float(F(b - a) * F(10) ** -6 * F(case["rate"])) for a, b in zip(pos, pos[1:])]
+    out = [(0, 0)]
+    for d in ds:
+        if d < 1e-10:
+            import math
+            ph = -10.0 * (math.log10(d) - 2.0)
+        else:
+            ph = phred_real(d)
+        tol = 2e-3 if d < 1e-7 else 1e-6
+        out.append((round(ph - tol), round(ph + tol)))
+    return out
+
+
+def do_recomb(ctx, batch, case):
+    impl = recomb_impl(case)
+    ctx.evaluated()
+    ctx.dist("recomb_kind", "genmap" if case["map"] is not None else "uniform")
+    ctx.dist("recomb_outcome", impl.get("err", "ok"))
+    if "ok" in impl and len(impl["ok"]) >= 3 and len(set(impl["ok"][1:])) >= 2:
+        ctx.nontrivial(json.dumps(case, sort_keys=True))
+    mean = recomb_meaning(case)
+    if mean is not None:
+        if "ok" not in impl or len(impl["ok"]) != len(mean) or any(not (lo <= v <= hi) for v, (lo, hi) in zip(impl["ok"], mean)):
+            ctx.disagree("c05.recomb(meaning: phred of Haldane's map function of the interpolated genetic distance)", case, impl, mean)
+        ctx.dist("recomb_meaning_checked", True)
+
+    def cb(req, ans):
+        if ans != impl:
+            ctx.disagree("c05.recomb", case, impl, ans)
+    batch.add(recomb_request(case), cb)
+
+
+def do_phred_laws(ctx, batch):
+    """the laws the integer-stage theorems assume of the arithmetic, tested on the float instance: the rounded phred value
+    never increases with the distance (`Lawful.phred_antitone`), the cap is round(phred(1e-10)) = what recombination_cost_map
+    charges for a zero genetic distance; the model's `c05.phred` = the real function on every distance"""
+    from whatshap.pedigree import centimorgen_to_phred, recombination_cost_map, RecombinationMapEntry
+    rng = ctx.rng
+    ds = sorted([10 ** rng.uniform(-13, 4) for _ in range(3000)] + [1e-10 * (1 + k * 1e-6) for k in range(-20, 21)]
+                + [1e-10, 9.999999999999e-11, 1.0000000000001e-10])
+    vals = [round(centimorgen_to_phred(d)) for d in ds]
+    ctx.evaluated()
+    for (a, ka), (b, kb) in zip(zip(ds, vals), zip(ds[1:], vals[1:])):
+        if kb > ka:
+            ctx.disagree("Lawful(floatOps).phred_antitone", {"kind": "phredlaw", "a": a, "b": b}, [ka, kb], "cost(b) <= cost(a) for a <= b")
+            break
+    cap = round(centimorgen_to_phred(1e-10))
+    flat = recombination_cost_map([RecombinationMapEntry(10, 0.5), RecombinationMapEntry(1000, 0.5)], [20, 30, 500])
+    if list(flat) != [0, cap, cap]:
+        ctx.disagree("recomb_zero_distance_costs_cap", {"kind": "phredlaw", "flat": True}, list(flat), [0, cap, cap])
+    ctx.extra["recombination_cost_cap"] = cap
+
+    def cb(req, ans):
+        got = [a.get("ok") for a in ans]
+        if got != vals:
+            k = next(i for i, (x, y) in enumerate(zip(got, vals)) if x != y)
+            ctx.disagree("c05.phred", {"kind": "phredlaw", "d": ds[k]}, vals[k], got[k])
+    batch.add({"op": "c05.phred", "d": [fl(d) for d in ds]}, cb)
+
+
+# ------------------------------------------------------------------------------------------------
+# (f) genotype likelihoods: GenotypeLikelihoods.as_phred / create_pedigree
+# ------------------------------------------------------------------------------------------------
+
+def gen_asphred_case(rng):
+    import struct
+    style = rng.random()
+    if style < 0.4:
+        pl = [rng.randrange(0, 130) for _ in range(3)]
+        lp, src = [x / -10 for x in pl], {"pl": pl}
+    elif style < 0.7:      # GL with one decimal, as htslib hands it over (float32)
+        lp = [struct.unpack("f", struct.pack("f", -rng.randrange(0, 120) / 10))[0] for _ in range(3)]
+        src = {}
+    else:
+        lp, src = [-rng.random() * rng.choice([1, 5, 30]) for _ in range(3)], {}
+    return dict({"kind": "asphred", "logp": lp, "reg": rng.choice([None, None, None, 0.0, 1e-6, 0.001, 0.01, 0.1, rng.random()])}, **src)
+
+
+def do_asphred(ctx, batch, case):
+    from whatshap.vcf import GenotypeLikelihoods
+    try:
+        ph = GenotypeLikelihoods(list(case["logp"])).as_phred(regularizer=case["reg"])
+        impl = [int(ph[g]) for g in ph.genotypes()]
+    except (ValueError, ZeroDivisionError, OverflowError, TypeError) as e:
+        impl = None
+    ctx.evaluated()
+    ctx.dist("asphred_regularizer", case["reg"] is not None)
+
+    def cb(req, ans):
+        if ans[0] != impl:
+            ctx.disagree("c05.as_phred", case, impl, ans[0])
+    batch.add({"op": "c05.as_phred", "calls": [[fl(x) for x in case["logp"]]], "reg": None if case["reg"] is None else fl(case["reg"])}, cb)
+    if "pl" in case and case["reg"] is None:
+        # integer stage: PL - min(PL)
+        def cb2(req, ans):
+            if ans[0] != impl:
+                ctx.disagree("c05.gl_int(plToPhred)", case, impl, ans[0])
+        batch.add({"op": "c05.gl_int", "pls": [case["pl"]]}, cb2)
+
+
 # ------------------------------------------------------------------------------------------------
 # pipeline
 # ------------------------------------------------------------------------------------------------
@@ -809,6 +1003,12 @@ def run_case(ctx, batch, case):
         do_dp(ctx, batch, case)
     elif k == "dplik":
         do_dplik(ctx, batch, case)
+    elif k == "recomb":
+        do_recomb(ctx, batch, case)
+    elif k == "asphred":
+        do_asphred(ctx, batch, case)
+    elif k == "phredlaw":
+        do_phred_laws(ctx, batch)
     elif k == "cli":
         run_cli(ctx, batch, case)
     elif k == "conflict":
@@ -832,6 +1032,11 @@ def run(ctx):
         do_dp(ctx, batch, gen_dp_case(rng))
     for _ in range((1500 if ctx.quick else 20000) * ctx.scale):
         do_dplik(ctx, batch, gen_dplik_case(rng))
+    do_phred_laws(ctx, batch)
+    for _ in range((1500 if ctx.quick else 20000) * ctx.scale):
+        do_recomb(ctx, batch, gen_recomb_case(rng))
+    for _ in range((500 if ctx.quick else 5000) * ctx.scale):
+        do_asphred(ctx, batch, gen_asphred_case(rng))
     batch.flush()
     G.assert_overlay_in_use(ctx.overlay)
     modes = ["trio-noreads", "trio-sparse", "trio-deep", "trio-deep", "quartet-noreads", "quartet-sparse", "quartet-deep",
